@@ -301,9 +301,13 @@ def impl_env():
     apps = {}
 
     def get_app(proto, chunked, mx, block, wsdl=None, aux=None):
-        key = (proto, chunked, mx, block, wsdl, aux)
+        # one application per (protocol, ?wsdl variant, auxiliary service): building an Application is expensive and
+        # the three transport settings are plain attributes that HttpBase.__init__ stores and every request reads
+        key = (proto, wsdl, aux)
         if key in apps:
-            return apps[key]
+            w = apps[key]
+            w.chunked, w.max_content_length, w.block_length = chunked, mx, block
+            return w
         svcs = [Svc] + ([make_aux(aux == 'sync-exc')] if aux else [])
         if proto == 'soap':
             app = Application(svcs, 'tns', in_protocol=Soap11(validator='soft'), out_protocol=Soap11())
@@ -1358,6 +1362,18 @@ def run(ctx):
             tr, side, _ = execute(w)
             ctx.finding('switch:%s=%s' % (k, str(f[k]).lower() if isinstance(f[k], bool) else f[k]), SWITCH_WHAT[k],
                         {'case': w, 'fact': k, 'measured': f[k], 'good': good, 'impl_trace': tr})
+    # the transport settings reach the object the requests read them from (the cases below set them on shared applications)
+    E = impl_env()
+    from spyne import Application, Service
+    from spyne.protocol.json import JsonDocument
+    probe = E['WsgiApplication'](Application([type('Probe', (Service,), {})], 'tns.probe', in_protocol=JsonDocument(),
+                                             out_protocol=JsonDocument()), chunked=False, max_content_length=123, block_length=45)
+    dflt = E['WsgiApplication'](Application([type('Probe2', (Service,), {})], 'tns.probe2', in_protocol=JsonDocument(),
+                                            out_protocol=JsonDocument()))
+    got = (probe.chunked, probe.max_content_length, probe.block_length, dflt.chunked, dflt.max_content_length, dflt.block_length)
+    if got != (False, 123, 45, True, 2 * 1024 * 1024, 8 * 1024):
+        ctx.finding('ctor-settings', 'WsgiApplication(chunked=False, max_content_length=123, block_length=45) / defaults stored as %r' % (got,),
+                    {'observed': list(got)})
     # ---- proof
     ctx.prove()
 
@@ -1365,7 +1381,13 @@ def run(ctx):
     cases = gen_cases(ctx)
     Q = []
     seen_val = 0
-    for case in cases:
+    import time as _time
+    t_log = _time.time()
+    ctx.log('T2/T3: %d cases' % len(cases))
+    for n_case, case in enumerate(cases):
+        if _time.time() - t_log > 60:
+            t_log = _time.time()
+            ctx.log('T2/T3: %d of %d cases executed' % (n_case, len(cases)))
         tr, side, calls = execute(case)
         ref = reference(case)
         if case['kind'] == 'rpc' and case['call']['m'] not in ('raw',) and 'chunks' not in ref and side.get('sized') and 'chunks' in side:
@@ -1425,7 +1447,9 @@ def run(ctx):
                                 'wsgiref.validate: ' + side2['validator_error'], {'case': case, 'impl_trace': tr2, 'validate': True})
                 elif tr2 != tr and not case.get('noclose'):
                     ctx.finding('nondeterministic-trace', 'the same request gives two traces', {'case': case, 'impl_trace': tr, 'second': tr2})
+    ctx.log('T2: %d queries to the model' % len(Q))
     answers = ctx.model([q for q, _, _ in Q])
+    ctx.log('T2: model answered')
     for (q, tr, case), mod in zip(Q, answers):
         if 'driver_error' in mod:
             raise core.Infra('driver error: %r on %r' % (mod, q))
